@@ -19,12 +19,17 @@ through a wrapper and handed to the model as its authenticator script.
 Oracle (implementation only = S4): whatever the partition, the messages delivered (parsed: type,
 serial, flags, header fields, body; and raw bytes) are exactly the messages sent, in order.
 
-Stream `parsed-after-framing` (extension 2026-09-30) ties the seam C04/C03: messages built with the real
-constructors, concatenated, cut (also inside the 16-byte fixed headers, at every byte for short streams),
-fed to the real protocol; what `rawDBusMessageReceived` + `message.parseMessage` hand to the `...Received`
-hooks (type, serial, flags, otherFlags, the nine header attributes, the body) is compared with the COMPOSED
-Lean model `receive` (Proto/Receive.lean: framing model, then C03's parseMessage model with C01's codec) -
-the function the theorems `delivers_parsed_messages*` / `receive_delivers_sent_c01` are about.
+Stream `parsed-after-framing` (extension 2026-09-30, reworked after review 3) ties the seam C04/C03: messages
+built with the real constructors (70 %; 30 % re-serialised by the reference serializer, either byte order),
+concatenated, cut (also inside the 16-byte fixed headers, at every byte for short streams), fed to the real
+protocol whose FOUR hooks are four distinct recorders.  Compared with the COMPOSED Lean model `recvRun`
+(Proto/Receive.lean: framing, then per frame C03's parseMessage model with C01's codec on `_receivedFDs`, the
+slice `_receivedFDs[m.unix_fds:]`, the dispatch on the message type; an exception escapes dataReceived):
+WHICH hook was called, what it was handed (type, serial, flags, otherFlags, the nine header attributes, the
+body), the exception name when parseMessage raises and the state it leaves, the final `_receivedFDs`.
+Oracle additions: every message reaches the hook of its type (`delivered-to-wrong-hook`, all streams), and - for
+messages whose constructed object was kept - the hook argument equals what the SENDER constructed
+(`delivered-differs-from-constructed`), not only parseMessage of the same bytes.
 """
 import itertools
 import struct
@@ -37,7 +42,9 @@ THEOREMS = ['binary_partition_independent', 'frames_of_messages', 'line_partitio
             'model_control_flow_matches_source',
             'wellFormed_of_constructed', 'sent_wellFormed_and_parses', 'sent_wellFormed_and_parses_c01',
             'delivers_parsed_messages', 'delivers_parsed_messages_c01', 'receive_delivers_sent_c01',
-            'delivers_parsed_messages_after_handshake', 'delivers_parsed_messages_after_handshake_c01']
+            'delivers_parsed_messages_after_handshake', 'delivers_parsed_messages_after_handshake_c01',
+            'dispatch_table_ok', 'recv_delivers_sent', 'recv_delivers_sent_c01',
+            'recv_delivers_sent_after_handshake_c01', 'recv_delivers_calls_c01', 'recvRun_aborts_at_parse_error']
 TRUSTED_BASE = [
     'bytes.split / bytes.join / slicing / struct.unpack("I") mirrored by hand in Proto/Framing.lean '
     '(validated by the correspondence streams)',
@@ -316,6 +323,19 @@ class _FakeSocket:
         return struct.pack('3i', 1, 1, 1)
 
 
+def exc_name(e):
+    """Exception names as Driver.pyErrName prints them."""
+    n = type(e).__name__
+    if n == 'error' and type(e).__module__ == 'struct':
+        return 'struct.error'
+    if isinstance(e, UnicodeError):
+        return 'UnicodeError'
+    return n
+
+
+HOOK_OF_TYPE = {1: 'call', 2: 'ret', 3: 'err', 4: 'sig'}      # the property: a message is delivered to the hook of its type
+
+
 def _make_classes():
     """Build the observing subclasses against the txdbus currently imported (ctx.repo)."""
     marshal, message, protocol, error = _mods()
@@ -331,7 +351,8 @@ def _make_classes():
             self.effects = []
             self.parsed = []
             self.raws = []
-            self.objs = []           # what the ...Received hooks were handed / the name of the parse exception
+            self.objs = []           # (hook name, what that hook was handed) / the name of the parse exception
+            self.hooks = []          # the hook names, in call order
 
         def rawDBusMessageReceived(self, raw):
             self.effects.append('M' + (bytes(raw).hex() or '-') if len(raw) < 10 ** 7 else 'M<%d bytes>' % len(raw))
@@ -342,20 +363,32 @@ def _make_classes():
                 raise                    # a scheduled handler failure, not a parse error
             except Exception as e:
                 self.parsed.append({'parse-error': type(e).__name__})
-                self.objs.append(type(e).__name__)
+                self.objs.append(exc_name(e))
                 self.parse_failed = True
                 if not self.swallow:     # as in the real code: the exception escapes dataReceived
                     raise
 
         hook = None      # schedule for nested / raising handlers (stream reentrant-delivery)
 
-        def methodCallReceived(self, m):
+        def _received(self, which, m):
             self.parsed.append(canon_msg(m))
-            self.objs.append(m)
+            self.objs.append((which, m))
+            self.hooks.append(which)
             if self.hook is not None:
                 self.hook(len(self.parsed) - 1)
 
-        methodReturnReceived = errorReceived = signalReceived = methodCallReceived
+        # four DISTINCT hooks (review 3, F1): which one `rawDBusMessageReceived` calls is observed
+        def methodCallReceived(self, m):
+            self._received('call', m)
+
+        def methodReturnReceived(self, m):
+            self._received('ret', m)
+
+        def errorReceived(self, m):
+            self._received('err', m)
+
+        def signalReceived(self, m):
+            self._received('sig', m)
 
     @implementer(protocol.IDBusAuthenticator)
     class StubAuth:
@@ -468,7 +501,7 @@ def observe(ctx, sc):
             p._rec_init()
             p.swallow = bool(sc.get('swallow'))
             p.transport = tr
-            p._receivedFDs = []
+            p._receivedFDs = list(sc.get('fds') or [])
             p._authenticated = True
         else:
             if mode in ('stub-client', 'stub-server'):
@@ -491,6 +524,8 @@ def observe(ctx, sc):
             p._rec_init()
             p.factory = _FakeFactory()
             p.makeConnection(tr)
+            if sc.get('fds'):
+                p._receivedFDs = list(sc['fds'])
             if mode.startswith('real') and not wrapbox:
                 raise HarnessFault('the authenticator hook was not used by connectionMade')
     except HarnessFault:
@@ -558,7 +593,7 @@ def observe(ctx, sc):
         script = sc.get('script', '')
     return {'effects': p.effects, 'final': final, 'parsed': p.parsed, 'raws': p.raws, 'script': script,
             'crashed': crashed, 'authenticated': bool(p._authenticated), 'parse_failed': p.parse_failed,
-            'objs': p.objs}
+            'objs': p.objs, 'hooks': p.hooks, 'fds': list(getattr(p, '_receivedFDs', None) or [])}
 
 
 _MISSING = set()
@@ -586,8 +621,10 @@ def model_line(sc, script):
     mode = sc['mode']
     client = '0' if mode in ('stub-server', 'real-server') else '1'
     auth = '1' if mode == 'binary' else '0'
-    return '%s %s %s %s %s' % ('P' if sc.get('parse') else 'R', client, auth, script or '-',
-                               ' '.join(r or '-' for r in sc['reads']))
+    if sc.get('parse'):
+        fds = ','.join(str(int(f)) for f in (sc.get('fds') or [])) or '-'
+        return 'P %s %s %s %s %s' % (client, auth, script or '-', fds, ' '.join(r or '-' for r in sc['reads']))
+    return 'R %s %s %s %s' % (client, auth, script or '-', ' '.join(r or '-' for r in sc['reads']))
 
 
 _PARSED_ATTRS = ['path', 'interface', 'member', 'error_name', 'reply_serial', 'destination', 'sender',
@@ -615,19 +652,21 @@ def parsed_str(m):
     from harness import valcodec as vc
     if isinstance(m, str):
         return 'err ' + m
+    which, m = m
     body = getattr(m, 'body', None)
     try:
         bs = 'N' if body is None else vc.to_line(list(body))
     except (ValueError, TypeError) as e:
         bs = '?%s' % type(e).__name__
-    return 'ok type=%d serial=%d er=%s as=%s of=%d %s body=%s' % (
-        m._messageType, int(m.serial), 'T' if m.expectReply else 'F', 'T' if m.autoStart else 'F',
+    return 'ok hook=%s type=%d serial=%d er=%s as=%s of=%d %s body=%s' % (
+        which, m._messageType, int(m.serial), 'T' if m.expectReply else 'F', 'T' if m.autoStart else 'F',
         int(getattr(m, 'otherFlags', 0)),
         ' '.join('%s=%s' % (a, attr_str(getattr(m, a, None))) for a in _PARSED_ATTRS), bs)
 
 
 def parsed_line(obs):
-    return ' ; '.join(parsed_str(m) for m in obs['objs']) or '-'
+    return (' ; '.join(parsed_str(m) for m in obs['objs']) or '-') + ' || fds=' + (
+        ','.join(str(int(f)) for f in obs['fds']) or '-')
 
 
 # --------------------------------------------------------------------------------------- judging
@@ -662,6 +701,19 @@ def classify(sc, obs):
             'an unparsable message inside a coalesced read: delivered %d raw messages, exception %r; expected the '
             'first %d and the parse error escaping dataReceived' % (len(obs['raws']), obs['crashed'], k))
     if obs['raws'] == sent and obs['parsed'] == expected_of(sent):
+        # every message reaches the hook of ITS type (the property observes the calls of the four hooks)
+        want_hooks = [HOOK_OF_TYPE.get(d['type']) for d in obs['parsed']]
+        if obs.get('hooks') is not None and obs['hooks'] != want_hooks:
+            return 'delivered-to-wrong-hook', ('the messages were framed and parsed, but handed to the hooks %r; their '
+                                               'types ask for %r' % (obs['hooks'][:12], want_hooks[:12]))
+        # ... and is handed what the SENDER constructed (when the scenario kept the constructed objects): type, serial,
+        # flags, header fields, body in the codec's normal form - not only what parseMessage makes of the same bytes
+        for k, want in enumerate(sc.get('constructed') or []):
+            if want is not None and k < len(obs['parsed']) and obs['parsed'][k] != want:
+                diff = sorted(a for a in want if obs['parsed'][k].get(a) != want[a])
+                return 'delivered-differs-from-constructed', (
+                    'message %d was delivered intact as bytes, but the hook was handed a message that differs from the '
+                    'object the constructor built in %r (C03 composed with C04: "exactly the messages sent")' % (k, diff))
         return None, None
     what = 'delivered %d messages, sent %d' % (len(obs['raws']), len(sent))
     if obs['crashed']:
@@ -788,7 +840,11 @@ class Batch:
                     il = il + ' || ' + parsed_line(o)
                 else:
                     ml = strip_endian(out[k])
-                if o['parse_failed'] and o['crashed']:
+                if o['parse_failed'] and o['crashed'] and sc.get('parse'):
+                    # `recvRun` models the escaping exception (effects cut, `!`, later frames buffered): compared in full
+                    if ml != il:
+                        ctx.disagree(stream, shrink_sc(sc), clip(ml), clip(il))
+                elif o['parse_failed'] and o['crashed']:
                     # the model frames only: its effects must START with what was delivered before the parse error
                     want = ''.join(e + ' ' for e in o['effects'] if e != '!')
                     if not ml.startswith(want):
@@ -1272,7 +1328,8 @@ def gen_body2(rng, short):
 
 def gen_constructed(rng, short=False):
     """One message built with the REAL constructor: any of the four classes, every optional argument present or
-    absent at random, a body or none.  -> (raw bytes, big?, class name, signature).
+    absent at random, a body or none.  -> (raw bytes, big?, class name, signature, canonical form of the constructed
+    object or None).
     70 %: the constructor's own `rawMessage` (little endian, serial from the process-wide counter);
     30 %: the same object re-serialised by the reference serializer with a chosen serial, either byte order."""
     marshal, message, _, _ = _mods()
@@ -1295,10 +1352,11 @@ def gen_constructed(rng, short=False):
         m = message.SignalMessage(rng.choice(['/', '/a/b']), rng.choice(['M', 'Changed']),
                                   rng.choice(['a.b', 'org.example.Iface']), destination=dest, signature=sig, body=body)
     if rng.random() < 0.7:
-        return bytes(m.rawMessage), False, kind, sig
+        # the constructor's own bytes; the constructed OBJECT is kept (canonical form) for the oracle
+        return bytes(m.rawMessage), False, kind, sig, canon_msg(m)
     m.serial = gen_int(rng, 1, 2 ** 32 - 1)
     big = rng.random() < 0.6
-    return serialize(m, big), big, kind, sig
+    return serialize(m, big), big, kind, sig, None
 
 
 def header_cuts(rng, raws):
@@ -1318,11 +1376,15 @@ def stream_parsed_after_framing(ctx, B):
     rng = ctx.rng
     name = 'parsed-after-framing'
 
-    def add(raws, reads, meta, hs=None):
+    def add(raws, reads, meta, hs=None, constructed=None):
         sc = mk_binary(raws, reads, parse=True)
         if hs is not None:
-            sc = {'mode': 'stub-client', 'script': 's', 'reads': [r.hex() for r in reads],
+            sc = {'mode': 'stub-server' if hs[:1] == b'\0' else 'stub-client', 'script': 's',
+                  'reads': [r.hex() for r in reads],
                   'sent': [r.hex() for r in raws], 'handshake': hs.hex(), 'parse': True}
+        if constructed and any(c is not None for c in constructed):
+            sc['constructed'] = constructed
+            ctx.stat('%s:compared-with-constructed-objects=%d' % (name, sum(c is not None for c in constructed)))
         stream = b''.join(raws)
         # does a read boundary fall strictly inside a fixed header?
         off = len(hs) if hs else 0
@@ -1336,7 +1398,7 @@ def stream_parsed_after_framing(ctx, B):
             bounds.add(q)
         inside = any(0 < b - st < 16 for b in bounds for st in starts)
         ctx.stat('%s:cut-inside-fixed-header=%s' % (name, inside))
-        ctx.stat('%s:behind-handshake=%s' % (name, hs is not None))
+        ctx.stat('%s:behind-handshake=%s' % (name, 'no' if hs is None else ('server' if hs[:1] == b'\0' else 'client')))
         for k, sg, big in meta:
             ctx.stat('%s:class=%s' % (name, k))
             ctx.stat('%s:signature=%s' % (name, sg if sg is not None else 'None'))
@@ -1350,7 +1412,7 @@ def stream_parsed_after_framing(ctx, B):
         raws = [b[0] for b in built]
         meta = [(b[2], b[3], b[1]) for b in built]
         stream = b''.join(raws)
-        hs = b'BEGIN\r\n' if rng.random() < 0.15 else None
+        hs = rng.choice([b'BEGIN\r\n', b'\0BEGIN\r\n']) if rng.random() < 0.2 else None
         pre = hs or b''
         full = pre + stream
         parts = [random_partition(rng, full), random_partition(rng, full),
@@ -1358,9 +1420,10 @@ def stream_parsed_after_framing(ctx, B):
         if rng.random() < 0.3:
             parts.append([full[i:i + 1] for i in range(len(full))])          # byte by byte
         for reads in parts:
-            if hs is not None and (not reads or not any(reads)):
-                reads = [full]
-            add(raws, reads, meta, hs)
+            if hs is not None:
+                # a server indexes data[0] while it waits for its NUL byte: no empty read before it
+                reads = [r for r in reads if r] or [full]
+            add(raws, reads, meta, hs, constructed=[b[4] for b in built])
     # short streams: EVERY single cut position (empty first / last read included)
     for _ in range(ctx.scale(quick=5, thorough=60)):
         for _try in range(200):
@@ -1372,8 +1435,70 @@ def stream_parsed_after_framing(ctx, B):
         stream = b''.join(raws)
         ctx.stat('%s:every-byte-stream-len=%s' % (name, bucket(len(stream))))
         for i in range(len(stream) + 1):
-            add(raws, cut(stream, [i]), meta)
+            add(raws, cut(stream, [i]), meta, constructed=[b[4] for b in built])
     B.flush()
+    seam_errors(ctx, B, name)
+    seam_descriptors(ctx, B, name)
+    B.flush()
+
+
+def seam_errors(ctx, B, name):
+    """A frame that does not parse among good ones, through the COMPOSED model (command P): the exception name, the
+    effects up to and including the failing frame, `!`, the later frames of that read left in the buffer and the end
+    of the connection are compared with `recvRun`; the oracle judges up to and including the failing frame."""
+    rng = ctx.rng
+    for _ in range(ctx.scale(quick=60, thorough=1500)):
+        before = [gen_constructed(rng, short=True)[0] for _ in range(rng.choice([0, 1, 2, 3]))]
+        after = [gen_constructed(rng, short=True)[0] for _ in range(rng.choice([1, 2, 3]))]
+        bad = bytearray(gen_constructed(rng, short=True)[0])
+        kind = rng.choice(['type', 'type', 'body-missing'])
+        if kind == 'type':
+            bad[1] = rng.choice([9, 0, 5, 200])                       # unknown message type
+        elif kind == 'body-missing':
+            # the body is dropped but still announced: the frame swallows the first bytes of what follows and the
+            # frames behind it are misaligned - whatever parseMessage makes of that (MarshallingError, struct.error,
+            # UnicodeDecodeError, or a message) must be the same in model and code (S3 only)
+            import struct as _st
+            fmt = '<I' if bad[:1] == b'l' else '>I'
+            (alen,) = _st.unpack(fmt, bytes(bad[12:16]))
+            bad = bytearray(bad[:16 + alen + (-(16 + alen) % 8)])      # drop the body, announce it still
+        raws = before + [bytes(bad)] + after
+        stream = b''.join(raws)
+        for reads in ([stream], random_partition(rng, stream)):
+            sc = mk_binary(raws, reads, bad_index=len(before), parse=True)
+            ctx.stat('%s:unparsable-frame=%s' % (name, kind))
+            B.add(name, sc, oracle=(kind == 'type'))
+
+
+def seam_descriptors(ctx, B, name):
+    """The SECOND argument of parseMessage (`self._receivedFDs`) and the slice `_receivedFDs[m.unix_fds:]`: method
+    calls with descriptors in the body (`h`, `ah`; built with `oobFDs=[]`, so they carry a unix_fds header), a receiver
+    whose descriptor list is pre-loaded - sometimes too short.  Correspondence only (the evolution of the list over a
+    run is C05's property): bodies show WHICH descriptors parseMessage was given, `fds=` the list afterwards."""
+    rng = ctx.rng
+    _, message, _, _ = _mods()
+    for _ in range(ctx.scale(quick=40, thorough=1000)):
+        raws, need = [], 0
+        for _ in range(rng.choice([1, 2, 3, 4])):
+            r = rng.random()
+            if r < 0.4:
+                m = message.MethodCallMessage('/a', 'M', signature='h', body=[rng.randrange(3, 50)], oobFDs=[])
+                need += 1
+            elif r < 0.7:
+                k = rng.randrange(0, 4)
+                m = message.MethodCallMessage('/a', 'M', signature='sah', oobFDs=[],
+                                              body=['x', [rng.randrange(3, 50) for _ in range(k)]])
+                need += k
+            else:
+                m = message.SignalMessage('/a', 'S', 'a.b', signature='u', body=[rng.randrange(9)])
+            raws.append(bytes(m.rawMessage))
+        have = need + rng.choice([0, 0, 0, 1, 3, -1, -2])
+        fds = [100 + i for i in range(max(0, have))]
+        stream = b''.join(raws)
+        for reads in ([stream], random_partition(rng, stream)):
+            sc = mk_binary(raws, reads, parse=True, fds=fds)
+            ctx.stat('%s:preloaded-descriptors=%s' % (name, 'enough' if have >= need else 'too-few'))
+            B.add(name, sc, oracle=False)
 
 
 # --------------------------------------------------------------------------------------- entry points
